@@ -12,7 +12,7 @@ from pdb2sql import pdb2sql, many2sql, interface
 ID = 'C03'
 LEVEL = 'proof'
 CLUSTER = 'B'
-GEN_UNITS = ['Consts', 'sql_runtime', 'sql_get_nokw', 'sql_get_cond', 'sql_get_query', 'sql_format_get_output']
+GEN_UNITS = ['Consts', 'sql_runtime', 'sql_get_nokw', 'sql_get_cond', 'sql_get_query', 'sql_format_get_output', 'get_runtime', 'get_get', 'get_get_xyz', 'get_get_residues', 'get_get_chains']
 RULE = ('Tables of 0-40 atoms drawn from small value pools (so that conditions hit and miss). Per table: EVERY subset of size <= 4 '
         'of a pool of 6 conditions with distinct keys (bounded-exhaustive), EVERY ordered attribute list of length 1-4 over a pool of 4 '
         'attributes (rowID always among them) plus "*", then seeded random conjunctions of 0-4 positive/negated conditions over every '
@@ -717,6 +717,52 @@ def sql_text_checks(ctx):
     return res
 
 
+# ---- getTie: begin -----------------------------------------------------------------------------------------------------
+GEN_VIEWS = ('get_xyz', 'get_residues', 'get_chains')          # wrappers with a translated counterpart in the driver
+
+
+def gen_get_checks(ctx):
+    """the WHOLE translated `get` (Gen/Get.lean `GenG.get`: validation, per-model dispatch, key probes, the keyword loop, the
+    query, MicroSql as the engine) and the translated wrappers against the real code, on a sample of the property's own cases
+    (every family: pools, column lists, malformed columns / keys, rowID values that are not ints, multi-model files)"""
+    rng = ctx.rng
+    pool = cases(ctx)
+    gets = [c for c in pool if c['op'] == 'get']
+    views = [c for c in pool if c['op'] != 'get' and c['op'] in GEN_VIEWS]
+    fams = {}
+    for c in gets:
+        fams.setdefault(c['family'], []).append(c)
+    per = ctx.scale(80, 700)
+    sample = []
+    for f in sorted(fams):
+        sample += rng.sample(fams[f], min(per, len(fams[f])))
+    sample += rng.sample(views, min(ctx.scale(30, 300), len(views)))
+    lines, outs = [], []
+    for c in sample:
+        outs.append(impl(ctx, c))
+        lines.append(dict(driver_line(c), op={'get': 'g_get', 'get_xyz': 'g_get_xyz', 'get_residues': 'g_get_residues',
+                                               'get_chains': 'g_get_chains'}[c['op']]))
+    ans = vlib.run_driver(lines, which='model', cluster=CLUSTER) if lines else []
+    bad, n, disc, kinds = None, 0, 0, {}
+    for c, out, a in zip(sample, outs, ans):
+        m = a.get('model')
+        if not isinstance(m, dict) or 'gen' not in m:
+            bad = bad or {'case': short(driver_line(c)), 'driver': short(m)}
+            continue
+        v = agree_answer_model(out, m['gen'])
+        if v == 'discard':
+            disc += 1
+            continue
+        n += 1
+        kk = c['family'] + (':err' if is_err(out) else '')
+        kinds[kk] = kinds.get(kk, 0) + 1
+        if v is not True and bad is None:
+            bad = {'case': short(driver_line(c), 900), 'real code': short(out), 'translated get': short(m['gen']), 'hand model': short(m.get('hand'))}
+    return [{'name': f'whole get(): real code = GENERATED GenG.get / wrappers ({n} calls: {kinds}; {disc} outside MicroSql)', 'ok': bad is None and n > 100,
+             'case': bad, 'detail': 'Gen/Get.lean (py/translate_ext_get.py): the function translated whole, MicroSql as the engine', 'kind': 'gen-get'}]
+# ---- getTie: end -------------------------------------------------------------------------------------------------------
+
+
 # candidate findings (reported, not failing): see the cluster report
 def extra_checks(ctx):
     res = sql_text_checks(ctx)
@@ -750,4 +796,5 @@ def extra_checks(ctx):
     t = call(lambda: db2.get('temp'))
     ok = isinstance(t, list) and t[3] == 77.0 and all(t[j] == rows[j][11] for j in range(6) if j != 3)
     res.append({'name': 'rowID addresses the same row in update', 'ok': ok, 'case': {'temp': short(t)}, 'detail': ''})
+    res += gen_get_checks(ctx)                               # getTie
     return res
